@@ -17,7 +17,10 @@ RULE = ("one run = one workload (object-tree program with pre/post_randomize cal
         "free of override constraints / solver handles; then both the faulted world and a control "
         "world in which the op was never issued run the normalising prefix and the remaining ops, "
         "and their traces must be equal. evaluations = fault runs; distinct = distinct "
-        "(program shape, op 3-grams, fault kind@site kind).")
+        "(program shape, op 3-grams, fault kind@site kind). Workloads also hold a random-size list "
+        "(its pre-extended storage is temporary state: list lengths after a failed call must equal "
+        "those before it), free-function vsc.randomize_with calls, and fault sites between the "
+        "operands of binary expressions (expr_mid).")
 REAL = ["pyvsc (all of src/vsc)", "PyBoolector"]
 STUB = ["user code (generated; raises at armed sites)", "stdout (sink)"]
 ASSUMPTIONS = ["control-arm rule: a difference is reported only if the fault-free control world "
